@@ -511,9 +511,9 @@ class Program(object):
         c = self.consts.get(name_or_key) or self.consts_by_name.get(name_or_key)
         if not c:
             return None
-        for k in ("int", "str", "bool"):
+        for k in ("int", "str", "bool", "float"):
             if k in c:
-                return c[k]
+                return c[k]     # floats keep the compiler's textual form ("0.0"), as literal operands do
         return None
 
 
